@@ -2,6 +2,7 @@
 package c08
 
 import (
+	"bytes"
 	"fmt"
 	"regexp"
 	"strconv"
@@ -19,13 +20,16 @@ import (
 
 // per-request behaviours
 const (
-	bNow   = 'n' // reply at once
-	bCR    = 'r' // reply at once, its data contains CR LF (the channel strips CR: under 1.1 the reply no longer de-chunks -- C02's open finding -- but it is still this call's reply)
-	bNever = 'x' // never reply
-	bEdge  = 'e' // reply released a swept offset after the call started, around the moment the call times out (either outcome is fine for that call)
-	bLateA = 'a' // reply released right after the call timed out (before the next request is written)
-	bLateB = 'b' // reply emitted by the server just before it answers the next request
-	bLateC = 'c' // reply emitted just after the server answered the next request
+	bNow       = 'n' // reply at once
+	bErrSplit  = 'E' // reply at once: an rpc-error, chunked (1.1) with a boundary inside its message-id attribute
+	bSubID     = 's' // reply at once, its data contains a subscription-id element (e.g. a <get> of the subscriptions state)
+	bWriteFail = 'w' // the write of the return that follows this request fails once: the call errors, the server (1.0) answers anyway
+	bCR        = 'r' // reply at once, its data contains CR LF (the channel strips CR: under 1.1 the reply no longer de-chunks -- C02's open finding -- but it is still this call's reply)
+	bNever     = 'x' // never reply
+	bEdge      = 'e' // reply released a swept offset after the call started, around the moment the call times out (either outcome is fine for that call)
+	bLateA     = 'a' // reply released right after the call timed out (before the next request is written)
+	bLateB     = 'b' // reply emitted by the server just before it answers the next request
+	bLateC     = 'c' // reply emitted just after the server answered the next request
 )
 
 type scn struct {
@@ -79,6 +83,7 @@ func scenario(s scn) sched.Scenario {
 			if s.version == "1.1" {
 				caps = append(caps, dev.Cap11)
 			}
+			failed := map[int]bool{}
 			srv := &dev.NCServer{Hello: dev.HelloDoc(caps, "7"), Echo: s.echo, EmitBefore: map[int][]int{}, EmitAfter: map[int][]int{}}
 			for i := 0; i < len(s.hist); i++ {
 				switch s.hist[i] {
@@ -96,19 +101,47 @@ func scenario(s scn) sched.Scenario {
 				if i < len(s.hist) && s.hist[i] == bCR {
 					pad += "<t>x\r\ny\r\nz\r\n</t>"
 				}
+				if i < len(s.hist) && s.hist[i] == bSubID {
+					pad += "<subscriptions><subscription><subscription-id>7</subscription-id></subscription></subscriptions>"
+				}
+				if i < len(s.hist) && s.hist[i] == bErrSplit {
+					pad += "<rpc-error><error-severity>error</error-severity><error-message>no</error-message></rpc-error>"
+				}
 				reply := `<rpc-reply xmlns="` + dev.NSBase + `" message-id="` + req.ID + `"><data><n>` + strconv.Itoa(i) + `</n>` + pad + `</data></rpc-reply>`
 				if i >= len(s.hist) {
 					return reply, dev.ReplyNow
 				}
 				switch s.hist[i] {
-				case bNow, bCR:
+				case bNow, bCR, bSubID, bErrSplit, bWriteFail:
 					return reply, dev.ReplyNow
 				case bNever:
 					return reply, dev.ReplyNever
 				}
 				return reply, dev.ReplyHeld
 			}
+			srv.Chunks = func(i int, b []byte) [][]byte {
+				if i < len(s.hist) && s.hist[i] == bErrSplit {
+					if k := bytes.Index(b, []byte(`message-id="`)); k >= 0 {
+						return [][]byte{b[:k+14], b[k+14:]} // message-id="10|N"
+					}
+				}
+				return [][]byte{b}
+			}
 			tr := dev.NewFake(e, srv)
+			nonReturn := 0
+			tr.FailWriteOnce = func(idx int, b []byte) bool {
+				// the k-th request's payload write is the k-th write that is not a bare return; fail the return after it
+				if string(b) != "\n" {
+					nonReturn++
+					return false
+				}
+				k := nonReturn - 2 // write 1 is the client hello
+				if k >= 0 && k < len(s.hist) && s.hist[k] == bWriteFail && !failed[k] {
+					failed[k] = true
+					return true
+				}
+				return false
+			}
 			srv.Out = tr.Inject
 			tr.MaxChunk = s.maxChunk
 			tr.Cuts = s.b.Env > 0
@@ -213,11 +246,14 @@ func scenario(s scn) sched.Scenario {
 							e.Violate("c08:reply-returned-twice", "reply %s returned to calls %d and %d", m[1], k, i)
 						}
 						seen[m[1]] = i
-						if beh != bNow && beh != bEdge && beh != bCR {
+						if beh != bNow && beh != bEdge && beh != bCR && beh != bSubID && beh != bErrSplit && beh != bWriteFail {
 							e.Violate("c08:late-reply-accepted", "call %d (behaviour %c) should have timed out, got %q", i, beh, c.result)
 						}
 					} else {
-						if beh == bNow || beh == bCR {
+						if beh == bWriteFail {
+							continue // the call whose own write failed may report that
+						}
+						if beh == bNow || beh == bCR || beh == bSubID || beh == bErrSplit {
 							prevB := byte('-')
 							if i > 0 && i-1 < len(s.hist) {
 								prevB = s.hist[i-1]
@@ -282,6 +318,17 @@ func scenarios(tier string) []sched.Scenario {
 			}
 		}
 	}
+	// rpc-error replies chunked inside their message-id, replies that mention a subscription-id, a lost return write
+	for _, h := range []string{"E", "nE", "En", "s", "ns", "sn", "nsn", "wn", "nwn"} {
+		for _, echo := range []bool{false, true} {
+			for _, v := range []string{"1.0", "1.1"} {
+				if strings.Contains(h, "w") && v == "1.1" {
+					continue // the 1.1 server model needs the return to complete the message: nothing would be answered
+				}
+				out = append(out, scenario(scn{hist: h, echo: echo, version: v, b: sched.Bounds{Env: 0}}))
+			}
+		}
+	}
 	// replies whose data contains carriage returns, between ordinary ones
 	for _, h := range []string{"r", "nr", "rn", "nrn", "arn"} {
 		for _, echo := range []bool{false, true} {
@@ -321,7 +368,7 @@ func TestCheck(t *testing.T) {
 	sched.Main(t, sched.Check{
 		ID:    "C08",
 		Level: "model_checking",
-		Rule: "history = one behaviour per request over {reply now, never, late: released after the timed-out call / emitted before the next reply / emitted after the next reply}, all histories up to the length bound x {echo on, off} x {1.0, 1.1} x read presets {whole message, 1 byte, 7 bytes} (+ replies of 1.1 kB with every single cut); a read never spans two server messages; " +
+		Rule: "history = one behaviour per request over {reply now, never, late: released after the timed-out call / emitted before the next reply / emitted after the next reply; plus reply variants: rpc-error chunked inside its message-id, data mentioning a subscription-id, data with CR LF; plus a request whose return write fails once}, all histories up to the length bound x {echo on, off} x {1.0, 1.1} x read presets {whole message, 1 byte, 7 bytes} (+ replies of 1.1 kB with every single cut); a read never spans two server messages; " +
 			"per scenario all executions within the deviation bound (extra cuts/holds; thread switches among channel reader, NETCONF reader, RPC poller, caller); oracle = message-id bookkeeping against the server model's request log",
 		Assumptions: []string{"the server model echoes (when echo is on) every byte before answering", "timeouts 6.5x read delay; late replies are released at three phases relative to the next request"},
 		Scenarios:   scenarios,
